@@ -274,7 +274,7 @@ class Driver:
                 self.next_rd += 1
                 return [["get", key, self.last_now + 1, [self.next_rd]], ["read", key, tries, 1]]
             if last and last[0] == "get" and last[4] == "" and last[1] is not None:
-                return [["rseg", key], ["close", key, last[3]]]
+                return [["rseg", key], ["close", key, self.next_rd]]      # the label of the get issued at stage 0
             if last and last[0] == "get" and last[4] == "wait" and tries > 0:
                 return [["drain"], ["read", key, tries - 1, 0]]
             return []
